@@ -44,7 +44,7 @@ def run(chk, tier, seed):
     cov = {"states": m["states"] + st.get("conf_states", 0) + st.get("obs_states", 0),
            "transitions": m["transitions"] + st.get("conf_generated", 0) + st.get("obs_generated", 0),
            "traces_validated_against_impl": n, "evaluations": n, "distinct_nontrivial": dup,
-           "rule": "all streams up to the tier's length over 12 span records (3 ids x 2 versions x parents) x batch sizes, "
+           "rule": "all streams up to the tier's length over 14 span records (3 ids x 2 versions x parents, one id also under another trace id) x batch sizes, "
                    "plus seeded streams of 3-12 spans over 2-6 ids, half of them with a second ingesting process; "
                    "non-trivial = scenario whose streams contain a duplicate span id",
            "model_runs": m["runs"], "model_drift_executions": ndrift, "conformance_action_counts": st.get("actions", {}),
